@@ -13,6 +13,8 @@ use serde_json::{json, Value};
 use std::sync::Mutex;
 
 pub const BIG_LIMIT: u64 = 90;
+pub static TRACED: std::sync::atomic::AtomicUsize = std::sync::atomic::AtomicUsize::new(0);
+pub const MAX_TRACED: usize = 12;
 
 /// per-task parameters of an enumerated system
 #[derive(Clone, Debug, Serialize, Deserialize, PartialEq, Eq, Hash)]
@@ -368,9 +370,25 @@ pub fn check_taskset(
             acc.complete += 1;
         }
         if let Some((task, age)) = st.violation {
+            // Only the first few counterexamples of a run are traced and re-validated (each
+            // trace search can cost millions of states in an overloaded system); further
+            // violating systems are counted under the same key.
+            if TRACED.fetch_add(1, std::sync::atomic::Ordering::Relaxed) >= MAX_TRACED {
+                if want.safety {
+                    found.push(Found {
+                        key: format!("{}#bound-exceeded", ana_key(ana)),
+                        what: format!(
+                            "{}: Ok({}) for task {} but the model reaches a state in which a job of it has been pending for {} ticks (not individually traced); tasks {:?}",
+                            ana.name(), b[task].unwrap_or(0), task, age, ts
+                        ),
+                        replay: json!({"untraced": true, "ana": ana, "params": ts, "task": task}),
+                    });
+                }
+                continue;
+            }
             // shortest counterexample, validated by the independent trace checker
             let (_, ticks) = engine::find_trace(&m, Goal::Violation, 8_000_000)
-                .unwrap_or_else(|| machinery_error("BFS could not reproduce a DFS violation"));
+                .unwrap_or_else(|| machinery_error(&format!("trace search could not reproduce a violation found by the exploration: task {task} age {age} bounds {:?} tasks {:?}", b, ts)));
             let rep = tracecheck::check_uni(&spec, &ticks);
             if !rep.problems.is_empty() {
                 machinery_error(&format!(
@@ -726,12 +744,14 @@ pub fn replay(case: &Value) -> bool {
             // tightness artefact: re-run the single system
             let ana: Ana = serde_json::from_value(case["ana"].clone()).unwrap();
             let ts: Vec<TP> = serde_json::from_value(case["params"].clone()).unwrap();
-            let strict = case["strict_periodic"].as_bool().unwrap_or(true);
+            let strict = case["strict_periodic"].as_bool().unwrap_or(case.get("untraced").is_none());
             let bx = Box_ { name: "replay".into(), ana, ntasks: ts.len(), per_task: vec![], strict_periodic: strict };
             let ctx = Ctx::new("C18", crate::util::Tier::Quick);
             let mut acc = Acc::default();
             let mut found = vec![];
-            check_taskset(&ctx, &bx, &ts, 0, &Want { safety: false, tightness: true }, &mut acc, &mut found);
+            let untraced = case.get("untraced").is_some();
+            TRACED.store(0, std::sync::atomic::Ordering::Relaxed);
+            check_taskset(&ctx, &bx, &ts, 0, &Want { safety: untraced, tightness: !untraced }, &mut acc, &mut found);
             for f in &found {
                 println!("replay: {}", f.what);
             }
